@@ -15,7 +15,24 @@ def rep_inst(a, b, c, **kw):
     us = 'qstrreplace.0:%d,qstrreplace.1:%d,qstrreplace.2:%d,qstrreplace.3:%d,qstrreplace.4:%d,strncmp.0:%d' % (c + 2, b + 2, a + 2, c + 2, a + 2, b + 2)
     return dict(SN=a, TN=b, WN=c, unwind=max(6, a * max(c, 1) + 2), unwindset=us, **kw)
 
+RS = 'weave/rules/qstring.json'
+
+def pg(name, entry, funcs, weave_funcs=None, **kw):
+    d = dict(name='str_' + name, harness='qstring/unbounded.c', entry=entry, unwind=2, props=['C19', 'C11'], functions=funcs, units=[U],
+             strength='proof', timeout=300, bound='none (strings of any length up to 10^6, arbitrary bytes)')
+    if weave_funcs:
+        d['weave'] = {U: {'rules': RS, 'funcs': weave_funcs}}
+    d.update(kw)
+    return d
+
 GROUPS = [
+    pg('upper_lower', 'h_upper_lower', ['qstrupper', 'qstrlower'], ['qstrupper', 'qstrlower'], instances=[dict(WHICH=0), dict(WHICH=1)]),
+    pg('trim_tail', 'h_trim_tail', ['qstrtrim_tail'], ['qstrtrim_tail']),
+    pg('trim_head', 'h_trim_head', ['qstrtrim_head'], ['qstrtrim_head']),
+    pg('trim', 'h_trim', ['qstrtrim'], ['qstrtrim']),
+    pg('rev', 'h_rev', ['qstrrev'], ['qstrrev']),
+    pg('unchar', 'h_unchar', ['qstrunchar']),
+    pg('copy', 'h_copy', ['qstrcpy', 'qstrncpy']),
     sg('trim', 'h_trim', ['qstrtrim', 'qstrtrim_head', 'qstrtrim_tail'], [3, 6], [8]),
     sg('case_rev_unchar', 'h_case_rev_unchar', ['qstrupper', 'qstrlower', 'qstrrev', 'qstrunchar'], [3, 6], [8]),
     sg('copy', 'h_copy', ['qstrcpy', 'qstrncpy'], [2, 5], [7]),
